@@ -43,7 +43,12 @@ Evar == Name("e")
 LMet  == Lam1("e", Meth(Evar, "met", <<>>))
 LCut  == Lam1("e", Cmp(">", Meth(Evar, "met", <<>>), IntC(1)))
 LJets == Lam1("e", Meth(Evar, "jets", <<>>))
-DeriveOps == {<<"Select", LMet>>, <<"Where", LCut>>, <<"SelectMany", LJets>>}
+(* a lambda whose nested call gets a default argument filled in on a typed dataset (Jet.pt(a = 1)) *)
+LNest == Lam1("e", Meth(Meth(Evar, "jets", <<>>), "Select", <<Lam1("j", Meth(Name("j"), "pt", <<>>))>>))
+LNestTyped == Lam1("e", Meth(Meth(Evar, "jets", <<>>), "Select", <<Lam1("j", Meth(Name("j"), "pt", <<IntC(1)>>))>>))
+DeriveOps == {<<"Select", LMet>>, <<"Where", LCut>>, <<"SelectMany", LJets>>, <<"Select", LNest>>}
+(* what the operator emits for a lambda on a stream of the given item type *)
+Emitted(lam, inType) == IF lam = LNest /\ inType = "Evt" THEN LNestTyped ELSE lam
 MDEmpty == Dct(<<>>)
 MDOne   == Dct(<<StrC("m"), IntC(1)>>)
 MDs     == {MDEmpty, MDOne}
@@ -80,6 +85,7 @@ StreamType(op, lam, inType) ==
       [] inType # "Evt" -> "Any"
       [] op = "Select" /\ lam = LMet -> "int"
       [] op = "SelectMany" /\ lam = LJets -> "Jet"
+      [] op = "Select" /\ lam = LNest -> "Iterable[int]"
       [] OTHER -> "Any"
 
 NStreams == Len(streams)
@@ -112,9 +118,9 @@ Derive(s, op, lam) ==
     /\ Room /\ On({"imm", "exec", "qmd"}) /\ Newest(s)
     /\ LET p == streams[s]
            n == Len(heap) + 1
-       IN /\ heap' = Append(heap, Node(op, p.root, <<lam>>, NoQmd, 0))
+       IN /\ heap' = Append(heap, Node(op, p.root, <<Emitted(lam, p.type)>>, NoQmd, 0))
           /\ streams' = Append(streams,
-                 NewStream(n, StreamType(op, lam, p.type), Fn(op, <<p.gview, lam>>), p.gds, p.gqmd))
+                 NewStream(n, StreamType(op, lam, p.type), Fn(op, <<p.gview, Emitted(lam, p.type)>>), p.gds, p.gqmd))
           /\ hist' = Append(hist, Act("Derive", s, op, lam, "", 0, "", 0))
     /\ UNCHANGED <<pending, execLog, delivered, ncalls>>
 
